@@ -451,66 +451,112 @@ func checkCurrentPeriod(w *World, r *Report, rule string) {
 func containsMinterRule(w *World, r *Report, rule string) {
 	// the predicate itself: membership decided by comparing the id of every configured period, whatever the order of
 	// the list (the update handlers call it on the message's list before validation sorts it)
-	if cm := w.Func("x/cfeminter/types.Params.ContainsMinter"); cm == nil {
+	cm := w.Func("x/cfeminter/types.Params.ContainsMinter")
+	if cm == nil {
 		r.Unk("infra.anchor", "x/cfeminter/types.Params.ContainsMinter", "", "anchor not found")
-	} else {
-		idP := paramOfType(cm, "uint32", 0)
+		return
+	}
+	// membershipLoop decides, for function f with id parameter idP: "found" results only on an equal comparison of an
+	// element's SequenceId with the id, "not found" results only once the loop over Params.Minters is exhausted.
+	// classify tells what a returned value means: +1 found, -1 not found, 0 something else.
+	membershipLoop := func(f *ssa.Function, idP *ssa.Parameter, classify func(v ssa.Value) int) string {
 		var loop *rangeLoop
-		for _, l := range rangeLoops(cm) {
+		for _, l := range rangeLoops(f) {
 			l := l
 			if l.Over != nil && loadOfField(l.Over, "Minters", nil) {
 				loop = &l
 			}
 		}
-		why := ""
 		if idP == nil || loop == nil {
-			why = "no loop over Params.Minters (or no id parameter)"
-		} else {
-			eq := eqEdges(cm, func(v ssa.Value) bool { return v == ssa.Value(idP) }, func(v ssa.Value) bool {
-				_, f, ok := fieldOfValue(v)
-				return ok && f == "SequenceId" && elementContainer(v) != nil
-			})
-			in := loopBlocks(loop.Header)
-			nTrue := 0
-			for _, ret := range Returns(cm) {
-				rv := retVals(ret)
-				val, isConst := constBool(rv[0])
-				switch {
-				case !isConst:
-					why = "a result is computed from something else than an id comparison per period (" + renderVal(rv[0], 0) + ")"
-				case val:
-					nTrue++
-					if !MustPass(cm, eq, ret.Block()) {
-						why = "true is returned without an element's SequenceId having compared equal to the id"
-					}
-				default:
-					// false: only once the loop is exhausted
-					if in[ret.Block()] {
-						why = "false is returned before every period was compared"
-					}
+			return "no loop over Params.Minters (or no id parameter)"
+		}
+		eq := eqEdges(f, func(v ssa.Value) bool { return v == ssa.Value(idP) }, func(v ssa.Value) bool {
+			_, fld, ok := fieldOfValue(v)
+			return ok && fld == "SequenceId" && elementContainer(v) != nil
+		})
+		in := loopBlocks(loop.Header)
+		why := ""
+		nFound := 0
+		for _, ret := range Returns(f) {
+			rv := retVals(ret)
+			switch classify(rv[0]) {
+			case 0:
+				why = "a result is computed from something else than an id comparison per period (" + renderVal(rv[0], 0) + ")"
+			case 1:
+				nFound++
+				if !MustPass(f, eq, ret.Block()) {
+					why = "a positive answer is returned without an element's SequenceId having compared equal to the id"
+				}
+			default:
+				if in[ret.Block()] {
+					why = "a negative answer is returned before every period was compared"
 				}
 			}
-			if nTrue == 0 && why == "" {
-				why = "never returns true"
+		}
+		if nFound == 0 && why == "" {
+			why = "never answers positively"
+		}
+		// the loop may be left early only on an equal comparison
+		isEq := map[Edge]bool{}
+		for _, e := range eq {
+			isEq[e] = true
+		}
+		for bb := range in {
+			if bb == loop.Header {
+				continue
 			}
-			// the loop may be left early only on an equal comparison (the `return true`)
-			isEq := map[Edge]bool{}
-			for _, e := range eq {
-				isEq[e] = true
-			}
-			for bb := range in {
-				if bb == loop.Header {
-					continue
+			for si, sc := range bb.Succs {
+				if !in[sc] && !isEq[Edge{bb, si}] && !MustPass(f, eq, bb) && why == "" {
+					why = "the loop over the periods is left before every period was compared"
 				}
-				for si, sc := range bb.Succs {
-					if !in[sc] && !isEq[Edge{bb, si}] && !MustPass(cm, eq, bb) && why == "" {
-						why = "the loop over the periods is left before every period was compared"
+			}
+		}
+		return why
+	}
+	idP := paramOfType(cm, "uint32", 0)
+	boolClass := func(v ssa.Value) int {
+		val, isConst := constBool(v)
+		switch {
+		case !isConst:
+			return 0
+		case val:
+			return 1
+		}
+		return -1
+	}
+	why := membershipLoop(cm, idP, boolClass)
+	if why != "" {
+		// `return params.find(id) != nil`: the search sits in a finder that returns the element or nil
+		rets := Returns(cm)
+		if len(rets) == 1 {
+			if bo, ok := retVals(rets[0])[0].(*ssa.BinOp); ok && bo.Op == token.NEQ && (isNilConst(bo.X) || isNilConst(bo.Y)) {
+				other := bo.X
+				if isNilConst(bo.X) {
+					other = bo.Y
+				}
+				if c, isC := other.(*ssa.Call); isC && !c.Common().IsInvoke() {
+					if h := c.Common().StaticCallee(); h != nil && h.Blocks != nil && w.isProdFunc(h) {
+						var hid *ssa.Parameter
+						for i, a := range c.Common().Args {
+							if a == ssa.Value(idP) && i < len(h.Params) {
+								hid = h.Params[i]
+							}
+						}
+						why = membershipLoop(h, hid, func(v ssa.Value) int {
+							if isNilConst(v) {
+								return -1
+							}
+							if elementContainer(v) != nil {
+								return 1
+							}
+							return 0
+						})
 					}
 				}
 			}
 		}
-		r.Check(why == "", rule, "ContainsMinter(id): true exactly when some configured period has that sequence id", w.Pos(cm.Pos()), "every period's SequenceId is compared with the id; true only on an equal comparison, false only after the whole list", "the membership predicate does not compare the id of every configured period: "+why+" - it is applied to lists in the sender's order, so an update can be accepted although the stored (sorted) configuration lacks the current period")
 	}
+	r.Check(why == "", rule, "ContainsMinter(id): true exactly when some configured period has that sequence id", w.Pos(cm.Pos()), "every period's SequenceId is compared with the id; true only on an equal comparison, false only after the whole list", "the membership predicate does not compare the id of every configured period: "+why+" - it is applied to lists in the sender's order, so an update can be accepted although the stored (sorted) configuration lacks the current period")
 }
 
 func checkC10(w *World, r *Report) {
@@ -688,7 +734,7 @@ func (w *World) isPreviousMinter(fn *ssa.Function, v ssa.Value, depth int) bool 
 		return false
 	}
 	if ex, ok := v.(*ssa.Extract); ok && ex.Index == 1 {
-		if c, ok := ex.Tuple.(*ssa.Call); ok && strings.HasSuffix(callName(c.Common()), "keeper.getCurrentAndPreviousMinter") {
+		if c, ok := ex.Tuple.(*ssa.Call); ok && w.isSelectionCall(c.Common()) {
 			return true
 		}
 	}
